@@ -25,7 +25,10 @@ func genC07(g *Gen, tier string, idx int) *wire.Scenario {
 	}
 	sc := &wire.Scenario{Prop: "C07", Family: "undo"}
 	env := wire.Env{Mode: mode, Prompt: "> ", W: 80, H: 30, NoDefaultHistory: true}
-	if g.P(50) {
+	uni := g.P(35)
+	if uni {
+		env.History = []wire.HistSrc{{Kind: "memory", Name: "h0", Entries: []string{"premier mot", "héllo wörld ünï", "日本語 テキスト ab"}}}
+	} else if g.P(50) {
 		env.History = []wire.HistSrc{{Kind: "memory", Name: "h0", Entries: []string{"first entry", "second one here", "third"}}}
 	} else {
 		env.History = []wire.HistSrc{{Kind: "memory", Name: "h0"}}
@@ -40,6 +43,13 @@ func genC07(g *Gen, tier string, idx int) *wire.Scenario {
 	add := func(cmd string) {
 		if seq := g.Cat.ShortSeqFor(km, cmd); seq != "" {
 			sc.Script = append(sc.Script, tok(seq, cmd))
+		}
+	}
+	if uni && !vi {
+		// start from a recalled multi-byte line
+		for i := 0; i < g.Range(1, 2); i++ {
+			add("previous-history")
+			sc.Script[len(sc.Script)-1].Cmd = "history-walk"
 		}
 	}
 	if vi {
@@ -161,13 +171,16 @@ func execC07(x *Ctx, sc *wire.Scenario) *wire.Result {
 		return false
 	}
 	type blk struct {
-		start  string
-		undos  int
-		redos  int
-		phase  int // 1 = in undos, 2 = in redos
-		broken bool
+		start        string
+		undos        int
+		redos        int
+		phase        int // 1 = in undos, 2 = in redos
+		redosAtStart int
+		broken       bool
 	}
 	var b blk
+	walked := false
+	redosBefore := 0
 	consecutiveUndos := 0
 	editedSinceUndo := false
 	undoneSomething := false
@@ -184,6 +197,7 @@ func execC07(x *Ctx, sc *wire.Scenario) *wire.Result {
 		cmd := t.Cmd
 		switch cmd {
 		case "history-walk":
+			walked = true
 			// trivial walk model (no search commands in this alphabet)
 			if n > 0 {
 				up := string(t.B) == "k" || string(t.B) == x.Cat.ShortSeqFor("emacs", "previous-history")
@@ -222,12 +236,12 @@ func execC07(x *Ctx, sc *wire.Scenario) *wire.Result {
 					fmt.Sprintf("%d consecutive undos over %d recorded states end at %q, not at the line's initial content %q", consecutiveUndos, len(seen[ident]), after.Line, initial(ident)))
 			}
 			if b.phase == 0 {
-				b = blk{start: before.Line, phase: 1}
+				b = blk{start: before.Line, phase: 1, redosAtStart: redosBefore}
 			}
 			if b.phase == 1 {
 				b.undos++
 			} else {
-				b = blk{start: before.Line, phase: 1, undos: 1}
+				b = blk{start: before.Line, phase: 1, undos: 1, redosAtStart: redosBefore}
 			}
 			if after.Line != before.Line {
 				undoneSomething = true
@@ -248,12 +262,33 @@ func execC07(x *Ctx, sc *wire.Scenario) *wire.Result {
 				if b.redos == b.undos {
 					res.Counters["checked:undo_redo_block"]++
 					if after.Line != b.start {
-						return violation(res, "MISMATCH", "C07.redo-reverses-undo", "undo-n-redo-n",
+						cls := "undo-n-redo-n"
+						if b.undos == 1 {
+							cls += ":n=1"
+						} else {
+							cls += ":n>1"
+						}
+						for _, r := range b.start + after.Line {
+							if r > 0x7f {
+								cls += ":multi-byte-line"
+								break
+							}
+						}
+						if walked {
+							cls += ":after-history-walk"
+						}
+						if b.redosAtStart > 0 {
+							cls += ":after-earlier-redo"
+						}
+						return violation(res, "MISMATCH", "C07.redo-reverses-undo", cls,
 							fmt.Sprintf("%d undos followed by %d redos: buffer was %q before the block and is %q after it", b.undos, b.redos, b.start, after.Line))
 					}
 					b = blk{}
 				}
 			}
+		}
+		if isRedo {
+			redosBefore++
 		}
 		if !isUndo && !isRedo {
 			b = blk{}
